@@ -201,7 +201,7 @@ def model_mismatches(cases, tag, chunk=150):
             typ, ";\n".join(coq_case(c) for c in part), fn)
         out = vlib.coq_eval(tag, text)
         for m in vlib.parse_coq_list(out, "M"):
-            bad.append(s + int(m))
+            bad.append(s + int(m.replace('%nat', '').strip()))
     return bad
 
 
@@ -333,12 +333,14 @@ def judge_msg(c):
                 purged since its first Add is in the engine at every later DUMP and in every later R:q:0
     order     : R:q:0 lists ids in increasing order when all of q's ids have the same decimal length (< 2^63)
     phantom   : everything R:q returns was Added/Updated for q with that content
+    deleted   : a copy whose Del was requested before a persist that completed, and that was not added again, is not in the engine
     not-early : a relay of key k is preceded by a completed batch that Sets k (C05 store clause)
     Returns list of dict(pos, clause, what, triggers)."""
     fails = []
     names = msg_case_names(c)
     first_add, written, del_req, purged_after, relayed, set_done = {}, {}, set(), set(), {}, set()
     unflushed, purged_gone, f41 = set(), set(), set()
+    del_pending, del_flushed, swapped_dels = set(), set(), set()
     bunt = c.engine == "bunt"
 
     def trig(q):
@@ -359,8 +361,25 @@ def judge_msg(c):
             written.setdefault((q, mid), set()).add(data)
             unflushed.add((q, mid))
             purged_gone.discard((q, mid))
+            del_pending.discard((q, mid))
+            del_flushed.discard((q, mid))
+            swapped_dels.discard((q, mid))
         elif t == "D":
             del_req.add((unhex(f[4]), int(f[1])))
+            del_pending.add((unhex(f[4]), int(f[1])))
+        elif t == "K" or out == "PANIC":
+            del_pending.clear()
+            swapped_dels.clear()
+        elif t == "T":
+            del_flushed |= del_pending | swapped_dels
+            del_pending.clear()
+            swapped_dels.clear()
+        elif t == "S":
+            swapped_dels |= del_pending
+            del_pending.clear()
+        elif t == "B" and out != "PANIC":
+            del_flushed |= swapped_dels
+            swapped_dels.clear()
         elif t == "P":
             q = unhex(f[1])
             for (q2, mid) in first_add:
@@ -387,6 +406,10 @@ def judge_msg(c):
         must = [(q, mid) for (q, mid) in relayed if (q, mid) not in del_req and (q, mid) not in purged_after]
         if t == "DUMP":
             keys = {a[1][0] for a in atoms if a[0] == 8}
+            for (q, mid) in del_flushed:
+                if doc_msg_key(q, mid).hex() in keys and not bunt:
+                    fails.append(dict(pos=i, clause="deleted", what="copy queue=%r id=%d was Del-requested, a later persist completed, it was not added again, yet its key is in the engine" % (q, mid),
+                                      triggers=[]))
             for (q, mid) in must:
                 if doc_msg_key(q, mid).hex() not in keys:
                     fails.append(dict(pos=i, clause="durable", what="confirmed copy queue=%r id=%d (relayed at op %d) is not in the engine" % (q, mid, relayed[(q, mid)]),
